@@ -264,6 +264,9 @@ func (g *FnGen) processBlock(b *ssa.BasicBlock) {
 			for _, v := range g.env {
 				g.assume(guard, g.liveFact(g.st, v), "live")
 			}
+			for _, a := range g.root().allAllocs {
+				g.assume("true", sel(g.D.get(g.st, liveKey), a), "live-alloc")
+			}
 			g.assume("true", sel(g.D.get(g.st, liveKey), "nil"), "live")
 		}
 		for _, ins := range b.Instrs {
@@ -509,6 +512,16 @@ func (g *FnGen) havocKey(k string) {
 	if k == liveKey {
 		return // Live is only extended explicitly
 	}
+	if strings.HasPrefix(k, "G:") {
+		if _, ok := g.S.GhostFields[k[2:]]; ok {
+			g.ensureGhostField(k[2:])
+		}
+	}
+	if strings.HasPrefix(k, "GV:") {
+		if _, ok := g.S.GhostVars[k[3:]]; ok {
+			g.ensureGhostVar(k[3:])
+		}
+	}
 	if s, ok := g.D.heapSorts[k]; ok {
 		g.st[k] = g.freshConst("hv", s)
 	}
@@ -520,6 +533,11 @@ func (g *FnGen) allocRef(name, guard string) string {
 	live := g.D.get(g.st, liveKey)
 	g.assume("true", not("(= "+r+" nil)"), "alloc")
 	g.assume(guard, not(sel(live, r)), "alloc-fresh")
+	rt := g.root()
+	if rt.entrySt != nil {
+		g.assume("true", not(sel(g.D.get(rt.entrySt, liveKey), r)), "alloc-not-live-at-entry")
+	}
+	rt.allAllocs = append(rt.allAllocs, r)
 	g.st[liveKey] = g.def("live", g.D.heapSorts[liveKey], store(live, r, "true"))
 	return r
 }
@@ -529,6 +547,16 @@ func (g *FnGen) doAlloc(x *ssa.Alloc) {
 	r := g.allocRef(x.Name(), g.curGuard)
 	v := Val{T: r, S: sortRef, Go: x.Type()}
 	g.vals[x] = v
+	if x.Comment != "" && g.parent == nil {
+		if _, isStruct := et.Underlying().(*types.Struct); !isStruct {
+			if _, isArr := et.Underlying().(*types.Array); !isArr {
+				if g.cellVars == nil {
+					g.cellVars = map[string]Val{}
+				}
+				g.cellVars[x.Comment] = v
+			}
+		}
+	}
 	if tn := typeInvName(x.Type()); tn != "" && len(g.S.TypeInvs[tn]) > 0 && x.Heap {
 		rt := g.root()
 		rt.ownAllocs[tn] = append(rt.ownAllocs[tn], ownAlloc{r, g.curGuard})
@@ -1085,6 +1113,16 @@ func (g *FnGen) resolveAssignPlace(a string) (string, string) {
 		return "G:" + a[:i], ""
 	}
 	if i := strings.LastIndex(a, "."); i > 0 {
+		if nt := lookupNamedType(g.P, a[:i]); nt != nil && strings.Contains(a[:i], ".") {
+			if st, ok := nt.Underlying().(*types.Struct); ok {
+				for j := 0; j < st.NumFields(); j++ {
+					if st.Field(j).Name() == a[i+1:] {
+						k, _ := g.D.fieldKey(nt, j)
+						return k, ""
+					}
+				}
+			}
+		}
 		e, err := ParseExpr(a[:i])
 		if err == nil {
 			if id, ok := e.(EIdent); ok {
